@@ -8,6 +8,7 @@ import (
 	"bufio"
 	"fmt"
 	"io"
+	"os"
 	"os/exec"
 	"strconv"
 	"strings"
@@ -47,8 +48,10 @@ type Solver struct {
 	log     io.Writer
 	timeout int // ms per query
 	paths   int
-	inScope bool
-	lastErr string
+	lastErr  string
+	levels   [][]int32
+	ufLevels [][]string
+	Epoch    int
 }
 
 func NewSolver(kind string, timeoutMs int) (*Solver, error) {
@@ -68,6 +71,10 @@ func (s *Solver) start() error {
 		cmd = exec.Command("z3-new", "-in", "-smt2")
 	case "cvc5":
 		cmd = exec.Command("cvc5", "--incremental", "--lang=smt2", "--produce-models", fmt.Sprintf("--tlimit-per=%d", s.timeout))
+	case "cvc5-int":
+		// bit-vector arithmetic solved over the integers (keeps mod-2^k semantics): decides
+		// multiply/divide-by-constant kernels that bit-blasting does not finish
+		cmd = exec.Command("cvc5", "--incremental", "--lang=smt2", "--produce-models", "--solve-bv-as-int=sum", fmt.Sprintf("--tlimit-per=%d", s.timeout))
 	default:
 		return fmt.Errorf("unknown solver %q", s.kind)
 	}
@@ -84,7 +91,7 @@ func (s *Solver) start() error {
 		return err
 	}
 	s.cmd, s.in, s.out, s.w = cmd, in, bufio.NewReaderSize(out, 1<<16), bufio.NewWriterSize(in, 1<<16)
-	if s.kind == "cvc5" {
+	if strings.HasPrefix(s.kind, "cvc5") {
 		s.send("(set-logic ALL)")
 	} else {
 		s.send("(set-option :produce-models true)")
@@ -92,9 +99,20 @@ func (s *Solver) start() error {
 	}
 	s.defined = map[int32]bool{}
 	s.declUF = map[string]bool{}
-	s.inScope = false
+	s.levels = nil
+	s.ufLevels = nil
+	s.Epoch++
+	if d := os.Getenv("GOSYM_SMTLOG"); d != "" && s.log == nil {
+		solverSeq++
+		f, err := os.Create(fmt.Sprintf("%s/solver-%d-%d.smt2", d, os.Getpid(), solverSeq))
+		if err == nil {
+			s.log = f
+		}
+	}
 	return nil
 }
+
+var solverSeq int
 
 func (s *Solver) Close() {
 	if s.cmd != nil {
@@ -113,26 +131,51 @@ func (s *Solver) send(line string) {
 	s.w.WriteByte('\n')
 }
 
-// BeginPath opens a fresh scope. Every 500 paths the process is restarted to bound memory.
-func (s *Solver) BeginPath() {
-	s.paths++
-	if s.paths%500 == 0 {
-		s.Close()
-		s.Stats.Restarts++
-		if err := s.start(); err != nil {
-			panic(err)
-		}
-	}
+// Push opens a new assertion level.
+func (s *Solver) Push() {
 	s.send("(push 1)")
-	s.defined = map[int32]bool{}
-	s.declUF = map[string]bool{}
-	s.inScope = true
+	s.levels = append(s.levels, nil)
+	s.ufLevels = append(s.ufLevels, nil)
 }
 
-func (s *Solver) EndPath() {
-	if s.inScope {
-		s.send("(pop 1)")
-		s.inScope = false
+// PopTo pops assertion levels until n remain, forgetting the definitions made in them.
+func (s *Solver) PopTo(n int) {
+	if n < 0 {
+		n = 0
+	}
+	k := len(s.levels) - n
+	if k <= 0 {
+		return
+	}
+	s.send(fmt.Sprintf("(pop %d)", k))
+	for len(s.levels) > n {
+		top := len(s.levels) - 1
+		for _, id := range s.levels[top] {
+			delete(s.defined, id)
+		}
+		for _, u := range s.ufLevels[top] {
+			delete(s.declUF, u)
+		}
+		s.levels = s.levels[:top]
+		s.ufLevels = s.ufLevels[:top]
+	}
+}
+
+func (s *Solver) Level() int { return len(s.levels) }
+
+// Reset restarts the solver process (all state lost); Epoch changes.
+func (s *Solver) Reset() {
+	s.Close()
+	s.Stats.Restarts++
+	if err := s.start(); err != nil {
+		panic(err)
+	}
+}
+
+func (s *Solver) markDefined(id int32) {
+	s.defined[id] = true
+	if n := len(s.levels); n > 0 {
+		s.levels[n-1] = append(s.levels[n-1], id)
 	}
 }
 
@@ -176,13 +219,16 @@ func (s *Solver) define(tt *TermTable, t *Term) string {
 			}
 			continue
 		}
-		s.defined[u.id] = true
+		s.markDefined(u.id)
 		switch u.op {
 		case OpVar:
 			s.send("(declare-const " + u.name + " " + sortName(u.w) + ")")
 		default:
 			if u.op == OpUF && !s.declUF[u.name] {
 				s.declUF[u.name] = true
+				if n := len(s.ufLevels); n > 0 {
+					s.ufLevels[n-1] = append(s.ufLevels[n-1], u.name)
+				}
 				s.send(tt.ufs[u.name])
 			}
 			s.send("(define-fun " + tname(u) + " () " + sortName(u.w) + " " + u.body(s.ref) + ")")
@@ -201,7 +247,9 @@ func (s *Solver) ref(t *Term) string {
 	return tname(t)
 }
 
+// Assert opens a new level and asserts t in it.
 func (s *Solver) Assert(tt *TermTable, t *Term) {
+	s.Push()
 	n := s.define(tt, t)
 	s.send("(assert " + n + ")")
 }
@@ -236,6 +284,9 @@ func (s *Solver) Check(tt *TermTable, lit *Term, neg bool) SatResult {
 	}
 	s.w.Flush()
 	line, err := s.readLine()
+	if s.log != nil {
+		fmt.Fprintf(s.log, "; -> %s in %v\n", line, time.Since(start))
+	}
 	if err != nil {
 		s.Stats.Errors++
 		s.Stats.Unknown++
